@@ -282,6 +282,9 @@ func TestPropPairs(t *testing.T) {
 // exponents of 20+ digits whose machine-word wrap-around is a small number
 func TestPropWrap(t *testing.T) {
 	registerAll()
+	if i, _ := ev.Shard(); i != 0 {
+		t.Skip("not sharded: runs in the first process only")
+	}
 	ev.KeepFirst("wrap")
 	two64 := new(big.Int).Lsh(big.NewInt(1), 64)
 	var n, bad int64
